@@ -27,6 +27,7 @@ MUTANTS = [
     {"name": "cr-without-lf-is-error", "file": "src/protocol/stateless.rs", "old": "    let lf_index = memchr(LF, buf).ok_or(ParseError::NotEnoughData)?;", "new": "    let lf_index = match memchr(CR, buf) {\n        None => return Err(ParseError::NotEnoughData),\n        Some(i) => {\n            if buf.get(i + 1) != Some(&LF) {\n                return Err(ParseError::InvalidProtocol);\n            }\n            i + 1\n        }\n    };", "expect": "C15.D3:line"},
     {"name": "bulk-terminator-unchecked", "file": "src/protocol/stateless.rs", "old": "    if buf.get(end..end + 2) != Some(CRLF) {\n        return Err(ParseError::InvalidProtocol);\n    }\n", "new": "", "expect": "C15.D3:bulk"},
     {"name": "negative-array-not-nil", "file": "src/protocol/stateless.rs", "old": "    if len < 0 {\n        return Ok((ArrayIndex::Nil, consumed));\n    }", "new": "    if len < -1 {\n        return Ok((ArrayIndex::Nil, consumed));\n    }", "expect": "C15.D1"},
+    {"name": "array-incomplete-by-estimate", "file": "src/protocol/stateless.rs", "old": "    let array_size = len as usize;\n", "new": "    let array_size = len as usize;\n    if buf.len().saturating_sub(consumed) < array_size.saturating_mul(4) {\n        return Err(ParseError::NotEnoughData);\n    }\n", "expect": "C15.D4:exact"},
 ]
 
 PE = "protocol::stateless::ParseError"
@@ -56,6 +57,7 @@ def run(ctx):
     F = ctx.F
     ctx.rule("C15.D1", "encoder variant -> prefix / nil / terminator table equals the RESP table and the decoder's prefix -> variant table; negative length -> Nil", exhaustive=True)
     ctx.rule("C15.D2", "the read buffer is consumed only after a complete parse, by the parsed length; NotEnoughData -> Ok(None), InvalidProtocol -> error; an incomplete reply keeps its request hint")
+    ctx.rule("C15.D4", "incompleteness verdicts are exact: NotEnoughData is produced only for an empty buffer, a line without LF, or a bulk string shorter than its declared length + CR LF (a verdict from an estimate would stall a complete packet for ever)")
     ctx.rule("C15.D3", "framing: line parser on all 121 strings over {a,CR,LF} of length <= 4; bulk-string parser on literal packets", exhaustive=True)
     _line_table(ctx)
     _bulk_table(ctx)
@@ -63,6 +65,7 @@ def run(ctx):
     _encoder(ctx)
     _consume(ctx)
     _hint(ctx)
+    _exact_incompleteness(ctx)
 
 
 def _line_table(ctx):
@@ -395,3 +398,43 @@ def _hint(ctx):
         ctx.check(p is None, "C15.D2", "hint-kept-while-incomplete:%s" % ("consume" if at is not None and (callee_of(at) or "").endswith("consume") else "take"), site(b, ab),
                   ok="a hint taken for a reply is stored in curr_hint before any `not enough data` return", bad="a request hint can be taken and lost when the reply is incomplete: the next decode finds no hint and the reply is never delivered",
                   path=str(cfg.lines_of_path(b, p)) if p else None)
+
+
+def _exact_incompleteness(ctx):
+    from ..lib import branch_conditions, agg_sites
+    F = ctx.F
+    R = "C15.D4"
+    n = 0
+    for b in F.all_bodies(bins=False):
+        if b.is_mock() or b.kind == "Promoted" or "tests::" in b.path or not b.path.startswith(("protocol::stateless", "protocol::decoder", "protocol::packet", "<protocol::")):
+            continue
+        sites_ = agg_sites(b, "ParseError", "NotEnoughData")
+        if not sites_:
+            continue
+        du = DefUse(b)
+        dom = cfg.dominators(b)
+        for bb, i, st in sites_:
+            n += 1
+            ctx.analysed(b)
+            why = None
+            # (2) argument of ok_or on a memchr / position result
+            dl = st["place"]["l"]
+            for ub, ut in b.calls():
+                if (callee_of(ut) or "").endswith("Option::ok_or") and any((a.get("mv") or a.get("cp") or {}).get("l") == dl for a in ut["args"][1:]):
+                    sl = du.slice_operand(ut["args"][0])
+                    if sl.has_call("memchr") or sl.has_call("position"):
+                        why = "line without LF (memchr found nothing)"
+            for d, discr, val in branch_conditions(b, bb, dom):
+                is_true = (val == 1) or (isinstance(val, tuple) and val[1] == [0])
+                if not is_true:
+                    continue
+                sl = du.slice_operand(discr)
+                # (1) empty buffer
+                if sl.has_call("is_empty") and not sl.binops:
+                    why = why or "empty buffer"
+                # (3) buf.len() < consumed + declared length + 2
+                if sl.binops & {"Lt", "Le", "Gt", "Ge"} and sl.has_call("len") and sl.has_call("parse_len") and 2 in sl.const_ints() and (sl.binops & {"Add", "AddWithOverflow"}) and not (sl.binops & {"Mul", "MulWithOverflow", "Div", "Shl", "Shr"}) and not any(c.rsplit("::", 1)[-1].startswith(("saturating_", "wrapping_", "checked_mul")) for c in list(sl.calls) + list(sl.decls)):
+                    why = why or "buffer shorter than the declared bulk length + CR LF"
+            ctx.check(why is not None, R, "exact:%s#%d" % (b.path.rsplit("::", 1)[-1], n), site(b, bb, i), ok=why or "",
+                      bad="%s answers NotEnoughData on a condition that is not one of the exact ones (empty buffer, no LF, bulk shorter than declared length + 2): a complete packet can be judged incomplete, the decoder then waits for bytes that never come and the connection stalls" % b.path)
+    ctx.floor(R, "NotEnoughData constructions in the decoder", n, 3)
